@@ -279,6 +279,8 @@ fn run_job(j: &Job, rep: &mut Report) {
         }
     };
     let mut check = |hist: &[S], rep: &mut Report| {
+        // the watchdog limit applies to each history, not to the whole job
+        infra::watch_touch();
         rep.evaluations += 1;
         let h = fnv(format!("{:?}{}{:?}", j.stack, j.len, hist).as_bytes());
         rep.state(h);
@@ -310,6 +312,7 @@ fn run_job(j: &Job, rep: &mut Report) {
         targets.dedup();
         for t in targets {
             for hist in [vec![S::Start(t), S::Pos, S::Read(100), S::Pos], vec![S::End(t), S::Pos, S::Read(100)], vec![S::Read(5), S::Cur(t), S::Pos, S::Read(100)]] {
+                infra::watch_touch();
                 rep.evaluations += 1;
                 let h = fnv(format!("{:?}{}{:?}", j.stack, j.len, hist).as_bytes());
                 rep.state(h);
